@@ -340,6 +340,17 @@ def leaf_names(shape):
     return sorted(build(shape, 'coupled', 0).sels)
 
 
+def ix_state(w, spec):
+    """The selection object handed to the IndexedData: ONE object per world and spec, so that the very same
+    object is used before and after the indices are changed (a cache keyed on the selection object that misses
+    the indices is only visible that way).  The parent-side reference always uses fresh objects."""
+    cache = w.__dict__.setdefault('_ix_states', {})
+    key = core.jdump(spec)
+    if key not in cache:
+        cache[key] = make_state(w, spec)
+    return cache[key]
+
+
 def make_state(w, spec):
     """spec: leaf name, or (op, leaf, ...)."""
     from glue.core import subset as ss
@@ -708,7 +719,7 @@ def check_indexed(res, w, ix, idx, tier, full, case0, phase):
         if kind == 'attr':
             pc = w.attrs[name][1]
             return one_view(lambda v: ix.get_data(pc, view=v), np.asarray(d[pc])[sl], venc)[0] not in ('ok', 'skip')
-        st_, pst_ = make_state(w, name), make_state(w, name)
+        st_, pst_ = ix_state(w, name), make_state(w, name)
         try:
             ref = np.asarray(d.get_mask(pst_))[sl]
         except Exception:
@@ -716,7 +727,7 @@ def check_indexed(res, w, ix, idx, tier, full, case0, phase):
         return one_view(lambda v: ix.get_mask(st_, view=v), ref, venc)[0] not in ('ok', 'skip')
 
     for spec in IDX_SELS:
-        state = make_state(w, spec)
+        state = ix_state(w, spec)
         pstate = make_state(w, spec)
         label = spec if isinstance(spec, str) else '%s(%s)' % (spec[0], ','.join(spec[1:]))
         dep = w.sels[spec][1] if isinstance(spec, str) else 'composite'
@@ -751,7 +762,7 @@ def check_indexed(res, w, ix, idx, tier, full, case0, phase):
         if stat == 'percentile':
             kw['percentile'] = 30
         if sub is not None:
-            kw['subset_state'] = make_state(w, sub)
+            kw['subset_state'] = ix_state(w, sub)
         pkw = dict(kw, view=dec_view(parent_view(venc)))
         if sub is not None:
             pkw['subset_state'] = make_state(w, sub)
@@ -821,7 +832,7 @@ def check_indexed(res, w, ix, idx, tier, full, case0, phase):
                 kx = keep & np.isfinite(X) & (X >= xr[0]) & (X <= xr[1])
                 kw = dict(range=[xr], bins=[4])
                 if sub is not None:
-                    kw['subset_state'] = make_state(w, sub)
+                    kw['subset_state'] = ix_state(w, sub)
                 if hk == '1d':
                     cids = [cx]
                     exp = np.histogram(X[kx], bins=4, range=xr)[0].astype(float)
